@@ -916,6 +916,10 @@ func (x *Exec) applyContract(s *State, ct *Contract, fn *types.Func, sig *types.
 		s.assume(g)
 	}
 	old := s.clone()
+	// the callee's own ghosts change during the call: its postconditions speak about their final values
+	for _, g := range localGhosts {
+		s.ghost[g] = Val{K: KInt, S: x.eng.fresh("cghost."+g+"'", sInt)}
+	}
 	// frame: the targets of the modifies clause are resolved in the pre-call state
 	if !ct.Pure {
 		if ct.HasMod {
